@@ -264,7 +264,14 @@ func c15pipeline(doc []byte, yield func()) (steps []string) {
 	yield()
 	b, _ := json.Marshal(env)
 	rec("doc", stableDoc(b))
-	rec("digest", env.Head.Digest.Value)
+	if bytes.Contains(doc, []byte(`"issue_date"`)) {
+		rec("digest", env.Head.Digest.Value)
+	} else {
+		// a document without issue date gets today's date in its regime's time zone:
+		// its digest changes when that day changes between two passes (seen at 05:00
+		// UTC, midnight in Bogotá); everything else of it is compared with the date masked
+		rec("digest", "(depends on today's date)")
+	}
 	yield()
 	verr := env.Validate()
 	rec("validate", errS(verr))
@@ -298,7 +305,11 @@ func c15pipeline(doc []byte, yield func()) (steps []string) {
 	}
 	yield()
 	m, _ := json.Marshal(env)
-	rec("marshal", stable(m))
+	ms := stable(m)
+	if !bytes.Contains(doc, []byte(`"issue_date"`)) {
+		ms = regexp.MustCompile(`"val":"[0-9a-f]{64}"`).ReplaceAllString(dateRe.ReplaceAllString(ms, `"issue_date":"*"`), `"val":"*"`)
+	}
+	rec("marshal", ms)
 	return
 }
 
